@@ -46,7 +46,16 @@ MANIFEST = dict(
          "Which data are binned at all: every rule above takes the limited sort index (self['wsort']) as the stable sort index restricted to the data with "
          "min <= x <= max, both limits inclusive; that premise is decided on the method that stores it by the per-path value-flow analysis of the limits "
          "that check C05 defines (checks.C05.limits: a mask in sorted order, or a slice of the sorted index between numpy.searchsorted positions whose "
-         "side makes the bound inclusive), and reported here under R14.7.",
+         "side makes the bound inclusive), and reported here under R14.7.  "
+         "A buffer that a library routine may permute in place (numpy.median / percentile / quantile with overwrite_input, ndarray.sort / partition, "
+         "numpy.random.shuffle) stands from then on for REORDERED(its elements) under every name bound to it: a reduction that does not depend on the order "
+         "keeps its value, an element-wise pairing with an array still in reverse-index order (the weighted moments of the second variable) no longer equals "
+         "the definition and is reported under R14.1.  R14.8: one Binner is binned again and again, so Binner.dohist must, before it produces anything, remove "
+         "every result key that a run does not bind on all of its paths (keys bound by the methods and the keys tested for presence are collected from the class, "
+         "the always-bound keys by a structured must-analysis through the methods called, the removed keys from clear() / del / pop / loops over literal keys or "
+         "over a copy of the object's keys).  R14.9: the layout of the reverse indices that every calc_stats rule presupposes (offset of each of the nbin+1 bins "
+         "written, empty bins skipped by a datum get the offset of that datum, trailing bins the end of the counted data, index area in sorted order, both engines "
+         "alike) is decided on the engines by the guarded-effect analysis that check C05 defines (checks.C05.engines).",
     note="Not decided: numerical equality. Trusted: numpy "
          "reductions, slice-view aliasing and copy-on-overlap of numpy slice assignment, numpy.delete / append / concatenate, sympy normaliser, the histogram "
          "engine's reverse-index layout (offsets 0..nbin, then the members bin by bin, at least one datum); in the direct "
@@ -62,7 +71,7 @@ F = {n: sp.Function(n) for n in ("MEAN", "STD", "MEDIAN", "SUM")}
 
 # rules that keep their verdict however the code is laid out (decided by term equality over the values the result keys hold and by
 # path conditions decided per scenario; nothing in this check looks at statement text, local names or statement order)
-SEMANTIC = ('R14.1', 'R14.2', 'R14.3', 'R14.4', 'R14.5', 'R14.6', 'R14.7')
+SEMANTIC = ('R14.1', 'R14.2', 'R14.3', 'R14.4', 'R14.5', 'R14.6', 'R14.7', 'R14.8', 'R14.9')
 
 
 # ---------------------------------------------------------------------------------------------------------------------------------
@@ -84,6 +93,27 @@ HPOS = sp.Symbol("h", positive=True, integer=True)
 MPOS = sp.Symbol("m", positive=True, integer=True)
 _CONT = symx.Opaque("continue")
 APPEND, MEMBER_AT = sp.Function("APPEND"), sp.Function("MEMBER_AT")
+# REORDERED(v): the elements of v in an order the analysis does not know (a buffer a library routine permuted in place)
+REORDERED = sp.Function("REORDERED")
+# numpy routines that may permute their first argument in place when asked to (keyword overwrite_input)
+_OVERWRITING = ("median", "nanmedian", "percentile", "nanpercentile", "quantile", "nanquantile")
+_SYMMETRIC = ("MEAN", "STD", "MEDIAN", "SUM", "MIN", "MAX", "VAR")     # reductions that do not depend on the order of the elements
+
+
+def _src(node):
+    try:
+        return ast.unparse(node)
+    except Exception:
+        return type(node).__name__
+
+
+def _drop_reorder(e):
+    """a reduction that does not depend on the order of its elements has the same value on a permuted buffer; what is left of
+    REORDERED afterwards is an order-dependent use (an element-wise pairing with another array, an element taken by position)"""
+    if not (isinstance(e, sp.Basic) and e.has(REORDERED)):
+        return e
+    return e.replace(lambda t: isinstance(t, sp.Function) and type(t).__name__ in _SYMMETRIC and len(t.args) == 1 and t.args[0].func == REORDERED,
+                     lambda t: t.func(t.args[0].args[0]))
 # numpy ufuncs whose .reduce over a selection the term domain has a functional for
 UFUNC_REDUCE = {"add": "SUM"}
 
@@ -699,6 +729,7 @@ class State:
         self.do_hist = []
         self.merges = []
         self.area_rev = None     # the reverse-index object whose index area was last selected as a whole
+        self.reordered = []      # (where, text) of the library calls that permuted a buffer in place
         self.scen = None         # direct form: ordered substitution that decides the tests of the analysed function (one case of a case split)
         self.snaps = {}          # direct form: symbol -> frozen vector it stands for (a vector with element stores, by content)
         self._snapkeys = {}
@@ -1258,7 +1289,70 @@ class BEnv(symx.Env):
                 return _sv_concat(ps) or symx.Opaque("numpy." + nm)
         return None
 
+    # ---- library calls that reorder a buffer in place ---------------------------------------------------------------------------
+    def _aliases(self, name):
+        """the local names that may be bound to the same object as `name`: joined by plain assignments `a = b` in this function and
+        holding the same term at this moment"""
+        grp = {name}
+        node = getattr(self.fi, "node", None)
+        pairs = [(x.targets[0].id, x.value.id) for x in (ast.walk(node) if node is not None else ())
+                 if isinstance(x, ast.Assign) and len(x.targets) == 1 and isinstance(x.targets[0], ast.Name) and isinstance(x.value, ast.Name)]
+        changed = True
+        while changed:
+            changed = False
+            for a, b in pairs:
+                if (a in grp) != (b in grp):
+                    grp |= {a, b}
+                    changed = True
+        cur = self.vars.get(name)
+        return [n for n in grp if n == name or (n in self.vars and symx._same(self.vars[n], cur))]
+
+    def _reordered_buffer(self, c, nm, full):
+        """the expression whose storage the library call `c` may permute in place (numpy's documented behaviour), or None:
+        numpy.median / percentile / quantile (and the nan* forms) with overwrite_input not literally False, ndarray.sort / partition,
+        numpy.random.shuffle"""
+        f = c.func
+        if full.startswith("numpy.") and nm in _OVERWRITING and c.args:
+            ow = kwarg(c, "overwrite_input")
+            if ow is not None and not (isinstance(ow, ast.Constant) and not ow.value):
+                return c.args[0]
+        if full.startswith("numpy.") and nm == "shuffle" and len(c.args) == 1:
+            return c.args[0]
+        if isinstance(f, ast.Attribute) and nm in ("sort", "partition") and not full.startswith("numpy.") and isinstance(f.value, (ast.Name, ast.Attribute)):
+            try:
+                v = self.ev(f.value)
+            except symx.Unsupported:
+                return None
+            if isinstance(v, sp.Basic) and not isinstance(v, symx.Opaque):
+                return f.value
+        return None
+
+    def _mark_reordered(self, buf, c):
+        """after the call the buffer holds its elements in another order: every name bound to it stands for a permutation of what it
+        stood for (a temporary, e.g. the copy made by a fancy-index expression, is not seen again)"""
+        key = buf.id if isinstance(buf, ast.Name) else norm(buf) if isinstance(buf, ast.Attribute) else None
+        if key is None or key not in self.vars:
+            return
+        for n in (self._aliases(key) if isinstance(buf, ast.Name) else [key]):
+            v = self.vars.get(n)
+            if isinstance(v, sp.Basic) and not isinstance(v, symx.Opaque) and v.func != REORDERED:
+                self.vars[n] = REORDERED(v)
+                self.bs.reordered.append((self.where(c), "%s reorders %s in place" % (_src(c), n)))
+
     def call(self, c, stmt_level=False):
+        nm = call_name(c)
+        d = dotted_name(c.func)
+        full = self.se.repo.resolve_name(self.mod, d) if d else ""
+        buf = self._reordered_buffer(c, nm, full)
+        if buf is not None and isinstance(c.func, ast.Attribute) and nm in ("sort", "partition") and not full.startswith("numpy."):
+            self._mark_reordered(buf, c)             # ndarray.sort() / .partition(): in place, no value
+            return None
+        r = self._call(c, stmt_level)
+        if buf is not None:
+            self._mark_reordered(buf, c)
+        return r
+
+    def _call(self, c, stmt_level=False):
         f = c.func
         nm = call_name(c)
         d = dotted_name(f)
@@ -1847,6 +1941,8 @@ def run(chk):
     engine_bin_number(chk, repo)
     option_plumbing(chk, repo)
     selected_data(chk)
+    fresh_results(chk, repo)
+    engine_layout(chk)
 
 
 # ---------------------------------------------------------------------------------------------------------------------------------
@@ -1915,6 +2011,7 @@ def _mean_as_sum(e):
 
 
 def _same_term(got, want):
+    got = _drop_reorder(got)
     k = (sp.srepr(got), sp.srepr(want))
     if k not in _eqcache:
         ok = bool(symx.equal(got, want)[0])
@@ -1994,6 +2091,9 @@ def arms(chk, fi, runs):
                     g.append(ok)
                     if not ok:
                         gmsg = "found %s" % (got,)
+                        if isinstance(got, sp.Basic) and got.has(REORDERED) and r.bs.reordered:
+                            gmsg += "; %s at %s and the buffer is then paired element by element with an array still in the order of the reverse indices" \
+                                    % (r.bs.reordered[0][1], r.bs.reordered[0][0])
                     elif arr.open_last and arr.init_survives(_scen(sc)):
                         g.append(False)
                         gmsg = "in the last bin: %s" % arr.open_last
@@ -3642,6 +3742,425 @@ def option_plumbing(chk, repo):
                 continue          # a helper that consumes the value itself, or passes on something it computed from it
             chk.ob("R14.6", "options::%s::%s" % (fi.name, o), ok, where,
                    "the option `%s` of %s() arrives at the parameter of the same meaning in the Binner code it calls (%s)" % (o, fi.name, msg))
+
+
+# ---------------------------------------------------------------------------------------------------------------------------------
+# the reverse indices the statistics loop reads
+# ---------------------------------------------------------------------------------------------------------------------------------
+# instance of checks.C05.engines -> what it means for this property.  Every rule on calc_stats above reads bin i as the slice
+# rev[rev[i]:rev[i+1]] and takes rev[i] == rev[i+1] for "empty": that is the layout BOTH engines must produce (Binner uses the
+# compiled one when it can be imported and the Python one otherwise).
+_LAYOUT = {
+    "engine::py::every-offset-is-stored": "every offset rev[0..nbin] is written by the Python engine (an entry left at its initial 0 makes an empty bin look populated)",
+    "engine::c::every-offset-is-stored": "every offset rev[0..nbin] is written by the compiled engine (an entry left at its initial 0 makes an empty bin look populated)",
+    "engine::every-sorted-index-stored-at-its-offset": "the index area holds the sorted data indices one after the other, so a bin's slice is its members",
+    "engine::state::last-occupied-bin": "the engine remembers the last bin that received a datum, from which the offsets still to be written are counted",
+    "engine::bin-offsets-filled-up-to-current-bin": "when a datum opens bin b the offsets of ALL bins after the previously occupied one up to b are set to that "
+                                                    "datum's place: the empty bins skipped in between get rev[t] == rev[t+1] and keep the sentinel statistics",
+    "engine::tail-fill-found": "the offsets of the bins behind the last occupied one are written after the pass, so trailing empty bins are empty slices",
+    "engine::tail-fill-is-end-of-counted-data": "the offsets behind the last occupied bin are the end of the counted data, so the last occupied bin's slice is exactly its members",
+}
+_LAYOUT_REQUIRED = tuple(k for k in _LAYOUT if k != "engine::tail-fill-is-end-of-counted-data")
+_LAYOUT_DIFF = ("engines::python-only-effect::store/P5", "engines::c-only-effect::store/P5")     # P5: the reverse-index array
+
+
+class _Layout:
+    """stands in for the Check object while C05's analysis of the two histogram engines runs: the instances that say what the
+    engines write into the reverse-index array are reported under this property's rule, the others (counts, ABI) are C05's alone"""
+
+    def __init__(self, chk):
+        self._chk = chk
+        self.seen = set()
+        self.notes = {}
+
+    def ob(self, rule, key, ok, where="", msg="", **kw):
+        if key in _LAYOUT:
+            self.seen.add(key)
+            return self._chk.ob("R14.9", "engine::reverse-index-layout::" + key.split("::", 1)[1], ok, where, "%s: %s" % (_LAYOUT[key], msg))
+        if key in _LAYOUT_DIFF and ok is False:
+            return self._chk.ob("R14.9", "engine::reverse-index-layout::" + key.split("::", 1)[1], False, where,
+                                "the compiled and the Python engine write the same reverse indices (Binner uses whichever is available): %s" % msg)
+        return bool(ok)
+
+    def obt(self, rule, key, ok, fi, where="", msg="", **kw):
+        return self.ob(rule, key, ok, where or (fi[0] if isinstance(fi, (list, tuple)) else fi).where(), msg)
+
+    def assume(self, *a, **kw):
+        return None
+
+    def analysed_unit(self, *a, **kw):
+        return None
+
+    def __getattr__(self, name):
+        return getattr(self._chk, name)
+
+
+def engine_layout(chk):
+    """R14.9: the premise of R14.1 / R14.2 (members of bin i = rev[rev[i]:rev[i+1]], an empty bin has rev[i] == rev[i+1] and keeps the
+    sentinel) decided on the engines themselves by the guarded-effect analysis that check C05 defines (checks.C05.engines)."""
+    px = _Layout(chk)
+    try:
+        from checks import C05 as _c05
+        repo = PyRepo()
+        py = repo.func(ST + "_dohist")
+        cfn = cfront.functions(cfront.load_tu(_C_TU))["PyCHist_chist"]
+        _c05.engines(px, repo, py, cfn)
+        err = None
+    except Exception as e:           # the analysis of the engines is not available / did not get through: no verdict
+        err = "%s: %s" % (type(e).__name__, str(e)[:200])
+    for key in sorted(set(_LAYOUT_REQUIRED) - px.seen):
+        chk.ob("R14.9", "engine::reverse-index-layout::" + key.split("::", 1)[1], None, "", "%s: the analysis of the engines gave no result for this (%s)"
+               % (_LAYOUT[key], err or "instance not produced"))
+
+
+# ---------------------------------------------------------------------------------------------------------------------------------
+# every run starts from an empty result dictionary
+# ---------------------------------------------------------------------------------------------------------------------------------
+_ALL = "*"
+_ITER_OF_KEYS = ("list", "tuple", "sorted", "set", "frozenset")
+_DICT_MUTATORS = ("update", "setdefault", "popitem", "__setitem__", "__delitem__", "clear", "pop")
+
+
+def _xpref_aliases(fi, me):
+    """local names that only ever hold self.xpref"""
+    out, other = set(), set()
+    for n in ast.walk(fi.node):
+        if isinstance(n, ast.Assign):
+            for t in n.targets:
+                for x in ast.walk(t):
+                    if isinstance(x, ast.Name) and isinstance(x.ctx, ast.Store):
+                        if len(n.targets) == 1 and x is t and isinstance(n.value, ast.Attribute) and isinstance(n.value.value, ast.Name) \
+                                and n.value.value.id == me and n.value.attr == "xpref":
+                            out.add(x.id)
+                        else:
+                            other.add(x.id)
+        elif isinstance(n, (ast.AugAssign, ast.AnnAssign, ast.For, ast.comprehension, ast.NamedExpr)):
+            for x in ast.walk(n.target):
+                if isinstance(x, ast.Name) and isinstance(x.ctx, ast.Store):
+                    other.add(x.id)
+    return out - other - set(_all_params(fi))
+
+
+def _key_pattern(e, me, xal):
+    """a dictionary key as a pattern: string constants joined with {xpref} where the object's prefix stands; None: not recognised"""
+    if isinstance(e, ast.Constant) and isinstance(e.value, str):
+        return e.value
+    if isinstance(e, ast.Attribute) and isinstance(e.value, ast.Name) and e.value.id == me and e.attr == "xpref":
+        return XP
+    if isinstance(e, ast.Name) and e.id in xal:
+        return XP
+    if isinstance(e, ast.BinOp) and isinstance(e.op, ast.Add):
+        a, b = _key_pattern(e.left, me, xal), _key_pattern(e.right, me, xal)
+        return None if a is None or b is None else a + b
+    return None
+
+
+def _is_me_sub(t, me):
+    return isinstance(t, ast.Subscript) and isinstance(t.value, ast.Name) and t.value.id == me
+
+
+def _stmt_key_stores(st, me, xal):
+    """patterns of the keys a statement binds in the object (self[k] = ..., self[k] op= ...); None among them: a key not recognised"""
+    from vcheck.core import walk_no_nested
+    out = []
+    for n in walk_no_nested(st):
+        ts = n.targets if isinstance(n, ast.Assign) else [n.target] if isinstance(n, (ast.AugAssign, ast.AnnAssign)) else \
+            [n.target] if isinstance(n, (ast.For, ast.comprehension)) else [i.optional_vars for i in n.items if i.optional_vars is not None] \
+            if isinstance(n, ast.With) else []
+        for t in ts:
+            for x in (t.elts if isinstance(t, (ast.Tuple, ast.List)) else [t]):
+                if isinstance(x, ast.Starred):
+                    x = x.value
+                if _is_me_sub(x, me):
+                    out.append(_key_pattern(x.slice, me, xal))
+    return out
+
+
+def _me_calls(st, me):
+    from vcheck.core import walk_no_nested
+    return [n for n in walk_no_nested(st) if isinstance(n, ast.Call) and isinstance(n.func, ast.Attribute) and isinstance(n.func.value, ast.Name)
+            and n.func.value.id == me]
+
+
+def _removal_nodes(st, me):
+    """syntax nodes that take keys out of the object"""
+    from vcheck.core import walk_no_nested
+    out = []
+    for n in walk_no_nested(st):
+        if isinstance(n, ast.Delete) and any(_is_me_sub(t, me) for t in n.targets):
+            out.append(n)
+        elif isinstance(n, ast.Call) and isinstance(n.func, ast.Attribute) and n.func.attr in ("clear", "pop", "popitem", "__delitem__"):
+            v = n.func.value
+            if (isinstance(v, ast.Name) and v.id == me) or (isinstance(v, ast.Name) and v.id == "dict" and n.args and isinstance(n.args[0], ast.Name)
+                                                            and n.args[0].id == me):
+                out.append(n)
+    return out
+
+
+def _removed_by(st, me, xal, fi, consts):
+    """the keys ONE statement removes from the object whatever its state: _ALL, a set of key patterns, or None when the statement is
+    not one of the recognised forms (clear(); dict.clear(self); del self[k]; self.pop(k, default); `if k in self:` around one of them;
+    a loop over a literal collection of keys or over a copy of the object's own keys around one of them; while self: self.popitem())"""
+    def one_key(body, var):
+        """the key expression the single statement of `body` removes"""
+        if len(body) != 1:
+            return None
+        b = body[0]
+        if isinstance(b, ast.If) and not b.orelse and isinstance(b.test, ast.Compare) and len(b.test.ops) == 1 and isinstance(b.test.ops[0], ast.In) \
+                and isinstance(b.test.comparators[0], ast.Name) and b.test.comparators[0].id == me:
+            k = one_key(b.body, var)
+            return k if k is not None and norm(k) == norm(b.test.left) else None
+        if isinstance(b, ast.Delete) and len(b.targets) == 1 and _is_me_sub(b.targets[0], me):
+            return b.targets[0].slice
+        if isinstance(b, ast.Expr) and isinstance(b.value, ast.Call):
+            c = b.value
+            if isinstance(c.func, ast.Attribute) and isinstance(c.func.value, ast.Name) and c.func.value.id == me and c.func.attr == "pop" \
+                    and len(c.args) == 2 and not c.keywords:
+                return c.args[0]
+        return None
+
+    if isinstance(st, ast.Expr) and isinstance(st.value, ast.Call):
+        c = st.value
+        if isinstance(c.func, ast.Attribute) and c.func.attr == "clear" and not c.keywords:
+            v = c.func.value
+            if isinstance(v, ast.Name) and v.id == me and not c.args:
+                return _ALL
+            if isinstance(v, ast.Name) and v.id == "dict" and len(c.args) == 1 and isinstance(c.args[0], ast.Name) and c.args[0].id == me:
+                return _ALL
+    if isinstance(st, ast.While) and not st.orelse and isinstance(st.test, ast.Name) and st.test.id == me and len(st.body) == 1 \
+            and isinstance(st.body[0], ast.Expr) and isinstance(st.body[0].value, ast.Call) and norm(st.body[0].value.func) == me + ".popitem":
+        return _ALL
+    if isinstance(st, ast.Delete) and all(_is_me_sub(t, me) for t in st.targets):
+        ks = [_key_pattern(t.slice, me, xal) for t in st.targets]
+        return None if None in ks else set(ks)
+    k = one_key([st], None)
+    if k is not None and not isinstance(st, ast.Delete):
+        kp = _key_pattern(k, me, xal)
+        return None if kp is None else {kp}
+    if isinstance(st, ast.For) and not st.orelse and isinstance(st.target, ast.Name):
+        k = one_key(st.body, st.target.id)
+        if not (isinstance(k, ast.Name) and k.id == st.target.id):
+            return None
+        it = st.iter
+        if isinstance(it, ast.Call) and isinstance(it.func, ast.Name) and it.func.id in _ITER_OF_KEYS and len(it.args) == 1 and not it.keywords:
+            a = it.args[0]
+            if (isinstance(a, ast.Name) and a.id == me) or (isinstance(a, ast.Call) and not a.args and norm(a.func) == me + ".keys"):
+                return _ALL                 # every key of a copy of the object's own keys
+            it = a if isinstance(a, (ast.Tuple, ast.List, ast.Set, ast.Name)) else it
+        if isinstance(it, ast.Name):
+            defs = [n.value for n in ast.walk(fi.node) if isinstance(n, ast.Assign) and any(isinstance(t, ast.Name) and t.id == it.id for t in n.targets)]
+            if len(defs) == 1:
+                it = defs[0]
+            elif not defs and it.id in consts and it.id not in _all_params(fi):
+                it = consts[it.id]
+        if isinstance(it, (ast.Tuple, ast.List, ast.Set)):
+            ks = [_key_pattern(x, me, xal) for x in it.elts]
+            return None if None in ks else set(ks)
+    return None
+
+
+class _MustStore:
+    """keys bound on EVERY path through a method that ends normally (a path that raises reports nothing): structured walk, both arms
+    of a test intersected, loop bodies not counted (they may run zero times), methods of the object followed"""
+
+    def __init__(self, ms, me_of):
+        self.ms, self.me_of = ms, me_of
+        self.unknown = False            # a construct the walk does not model holds a store
+        self.busy = set()
+        self.memo = {}
+
+    def of_method(self, name):
+        if name in self.memo:
+            return self.memo[name]
+        if name in self.busy or name not in self.ms:
+            return set()
+        self.busy.add(name)
+        fi = self.ms[name]
+        me = self.me_of(fi)
+        xal = _xpref_aliases(fi, me) if me else set()
+        exits = []
+        end = self.walk(fi.node.body, set(), exits, me, xal)
+        if end is not None:
+            exits.append(end)
+        r = set.intersection(*exits) if exits else None      # None: no path ends normally
+        self.busy.discard(name)
+        self.memo[name] = r
+        return r
+
+    def simple(self, st, cur, me, xal):
+        cur = set(cur)
+        if me is None:
+            return cur
+        cur |= {k for k in _stmt_key_stores(st, me, xal) if k is not None}
+        for c in _me_calls(st, me):
+            if c.func.attr in self.ms:
+                r = self.of_method(c.func.attr)
+                if r is None:
+                    return None          # the callee never returns
+                cur |= r
+        return cur
+
+    def walk(self, stmts, cur, exits, me, xal):
+        for st in stmts:
+            if isinstance(st, ast.Return):
+                cur = self.simple(st, cur, me, xal)
+                if cur is not None:
+                    exits.append(cur)
+                return None
+            if isinstance(st, ast.Raise):
+                return None
+            if isinstance(st, ast.If):
+                head = self.simple(ast.Expr(value=st.test), cur, me, xal)
+                if head is None:
+                    return None
+                a = self.walk(st.body, set(head), exits, me, xal)
+                b = self.walk(st.orelse, set(head), exits, me, xal)
+                if a is None and b is None:
+                    return None
+                cur = a if b is None else b if a is None else (a & b)
+            elif isinstance(st, (ast.For, ast.While)):
+                self.walk(st.body, set(cur), exits, me, xal)
+                self.walk(st.orelse, set(cur), exits, me, xal)
+            elif isinstance(st, (ast.Try, ast.With, ast.AsyncWith, ast.AsyncFor)) or type(st).__name__ in ("Match", "TryStar"):
+                if me is not None and (_stmt_key_stores(st, me, xal) or any(c.func.attr in self.ms for c in _me_calls(st, me))):
+                    self.unknown = True
+            elif isinstance(st, (ast.FunctionDef, ast.AsyncFunctionDef, ast.ClassDef)):
+                continue
+            else:
+                cur = self.simple(st, cur, me, xal)
+                if cur is None:
+                    return None
+        return cur
+
+
+def _result_key_patterns():
+    out = {"hist", "rev", "nperbin", "low", "high"}
+    out |= {k for k, _, _, _ in STATKEYS.values()} | {k for k, _ in EDGEKEYS.values()}
+    return out
+
+
+def fresh_results(chk, repo):
+    """R14.8: one Binner is documented to be binned again and again (dohist(binsize=) ... dohist(nbin=) ... dohist(nperbin=)), and which
+    result keys a run writes depends on its options (nperbin / rev / second variable / weights / calc_stats); calc_stats moreover tests
+    keys for presence.  So what the dictionary reports after a run is the run's own result only if dohist, before it produces
+    anything, removes every result key that the run does not bind on all of its paths."""
+    q = ST + "Binner.dohist"
+    if not repo.has(q):
+        chk.ob("R14.8", "dohist::starts-from-empty-results", None, "", "Binner.dohist was not found")
+        return
+    fi = repo.func(q)
+    chk.analysed_unit(fi.qualname)
+    ms = {f.name: f for qq, f in repo.funcs.items() if f.cls == "Binner" and qq.startswith(ST + "Binner.")}
+
+    def me_of(f):
+        ps = _positional(f, False)
+        static = any(isinstance(x, ast.Name) and x.id in ("staticmethod", "classmethod") for x in f.node.decorator_list)
+        return ps[0] if ps and not static else None
+
+    me = me_of(fi)
+    where = fi.where()
+    text = ("Binner.dohist starts every run from an empty result dictionary: before it produces anything it removes every result key "
+            "that the run does not bind again on all of its paths (%s)")
+    if me is None:
+        chk.ob("R14.8", "dohist::starts-from-empty-results", None, where, text % "dohist has no instance parameter")
+        return
+    xal = _xpref_aliases(fi, me)
+    consts = getattr(fi.module, "consts", {}) or {}
+    consts = {k: v for k, v in consts.items() if isinstance(v, ast.AST)}
+    # 1. what the leading statements remove
+    removed, counted, unrecognised = set(), [], ""
+    body = list(fi.node.body)
+    if body and isinstance(body[0], ast.Expr) and isinstance(body[0].value, ast.Constant) and isinstance(body[0].value.value, str):
+        body = body[1:]
+    for st in body:
+        r = _removed_by(st, me, xal, fi, consts)
+        if r is None and isinstance(st, ast.Expr) and isinstance(st.value, ast.Call) and st.value in _me_calls(st, me) \
+                and st.value.func.attr in ms and st.value.func.attr != fi.name:
+            # a method of the object that does nothing but remove keys
+            h = ms[st.value.func.attr]
+            hme = me_of(h)
+            hb = [x for x in h.node.body if not (isinstance(x, ast.Expr) and isinstance(x.value, ast.Constant))]
+            hr = [_removed_by(x, hme, _xpref_aliases(h, hme), h, consts) for x in hb] if hme else [None]
+            if hb and None not in hr:
+                r = _ALL if _ALL in hr else set().union(*hr)
+        if r is not None:
+            counted += _removal_nodes(st, me)
+            if r == _ALL:
+                removed = _ALL
+            elif removed != _ALL:
+                removed |= r
+            continue
+        if _removal_nodes(st, me):
+            unrecognised = "the removal `%s` at %s is not one of the recognised forms" % (_src(st).split("\n")[0][:80], fi.where(st))
+            break
+        if _stmt_key_stores(st, me, xal) or any(c.func.attr in ms or c.func.attr in _DICT_MUTATORS for c in _me_calls(st, me)):
+            break                       # the run begins to produce results here
+    left = [n for n in _removal_nodes(fi.node, me) if not any(n is c for c in counted)]
+    if not unrecognised and left:
+        unrecognised = "keys are also removed at %s, after the run has begun or under a condition" % fi.where(left[0])
+    if removed == _ALL and not unrecognised:
+        chk.ob("R14.8", "dohist::starts-from-empty-results", True, where, text % "the whole dictionary is cleared first")
+        return
+    # 2. the keys the methods bind, the keys a run binds on all its paths, the keys tested for presence
+    bound, unknown_key, tested = {}, "", set()
+    for name, f in sorted(ms.items()):
+        fme = me_of(f)
+        if fme is None or name == "__init__":
+            continue
+        fx = _xpref_aliases(f, fme)
+        for n in ast.walk(f.node):
+            if isinstance(n, ast.stmt) and not isinstance(n, (ast.FunctionDef, ast.If, ast.For, ast.While, ast.Try, ast.With)):
+                for k in _stmt_key_stores(n, fme, fx):
+                    if k is None:
+                        unknown_key = unknown_key or "%s() binds a key that is not a constant at %s" % (name, f.where(n))
+                    else:
+                        bound.setdefault(k, f.where(n))
+            if isinstance(n, ast.Compare) and len(n.ops) == 1 and isinstance(n.ops[0], (ast.In, ast.NotIn)) \
+                    and isinstance(n.comparators[0], ast.Name) and n.comparators[0].id == fme:
+                k = _key_pattern(n.left, fme, fx)
+                if k is not None:
+                    tested.add(k)
+            if isinstance(n, ast.Call) and isinstance(n.func, ast.Attribute) and isinstance(n.func.value, ast.Name) and n.func.value.id == fme \
+                    and n.func.attr in ("update", "setdefault", "__setitem__"):
+                unknown_key = unknown_key or "%s() fills the object through %s() at %s" % (name, n.func.attr, f.where(n))
+    must = _MustStore(ms, me_of)
+    always = must.of_method(fi.name)
+    if always is None or must.unknown:
+        chk.ob("R14.8", "dohist::starts-from-empty-results", None, where,
+               text % "which keys a run always binds could not be decided (stores inside try / with, or no path that ends normally)")
+        return
+    prefixes = set()
+    for f in ms.values():
+        fme = me_of(f)
+        for n in ast.walk(f.node):
+            if isinstance(n, ast.Assign) and any(isinstance(t, ast.Attribute) and isinstance(t.value, ast.Name) and t.value.id == fme and t.attr == "xpref"
+                                                 for t in n.targets):
+                prefixes.add(n.value.value if isinstance(n.value, ast.Constant) and isinstance(n.value.value, str) else None)
+
+    def is_removed(k):
+        if removed == _ALL or k in removed:
+            return True
+        if XP in k and prefixes and None not in prefixes:
+            return all(k.replace(XP, p) in removed for p in prefixes)
+        return False
+
+    relevant = _result_key_patterns() | tested
+    stale = sorted(k for k in bound if k in relevant and k not in always and not is_removed(k))
+    if stale and not unrecognised:
+        shown = ", ".join("'%s'" % k.replace(XP, "<xpref>") for k in stale[:8]) + (" ..." if len(stale) > 8 else "")
+        how = ("only %s removed" % ", ".join("'%s'" % k for k in sorted(removed))) if removed else "nothing is removed"
+        t = [k for k in stale if k in tested]
+        chk.ob("R14.8", "dohist::starts-from-empty-results", False, where,
+               text % ("%s at the start of dohist, so a second run on the same Binner keeps the previous run's %s (bound only on some paths, e.g. at %s)%s%s"
+                       % (how, shown, bound[stale[0]],
+                          ("; %s tested for presence and steer%s the next calc_stats" % (", ".join("'%s'" % k for k in t), "s" if len(t) == 1 else "")) if t else "",
+                          ("; " + unrecognised) if unrecognised else "")))
+        return
+    if unrecognised or unknown_key:
+        chk.ob("R14.8", "dohist::starts-from-empty-results", None, where, text % (unrecognised or unknown_key))
+        return
+    chk.ob("R14.8", "dohist::starts-from-empty-results", True, where,
+           text % ("every key not bound on all paths is removed first: %s" % ", ".join(sorted(k.replace(XP, "<xpref>") for k in removed))))
 
 
 # ---------------------------------------------------------------------------------------------------------------------------------
